@@ -195,6 +195,126 @@ theorem c04_lifecycle_clean_suspended (hist : List (Bool × Ending')) :
 example : ¬ Clean (evaluateQ true {} .suspended).node := by
   simp [evaluateQ, duringQ, start, Clean]
 
+/-! #### A query that supplies a variable's domain (repair R32)
+
+`y = let(T, domain=inner)`: the outer query evaluates `inner` on the way.  Two query objects, the nodes `o` only the
+outer query reaches and the nodes `i` of the inner query (reached by both).  An evaluation marks every query it
+evaluates as running; its start-of-evaluation reset and its final reset cover every node it reaches. -/
+
+structure Sys where
+  o : NodeSt := {}
+  i : NodeSt := {}
+  runO : Bool := false
+  runI : Bool := false
+  deriving DecidableEq, Repr
+
+inductive Which where
+  | outer | inner
+  deriving DecidableEq, Repr
+
+/-- What may happen to a query object: an evaluation with some ending, or the iterator of an earlier suspended
+    evaluation being closed / finalised later (its `finally` block runs then; `mine`: its marks are still its own). -/
+inductive SysOp where
+  | eval (w : Which) (caching : Bool) (e : Ending')
+  | closeOld (w : Which) (mine : Bool)
+  deriving DecidableEq, Repr
+
+/-- The state an evaluation of `w` starts from. -/
+def startSys (s : Sys) : Which → Sys
+  | .outer => if s.runO || s.runI then { s with o := resetAfter s.o false, i := resetAfter s.i false } else s
+  | .inner => if s.runI then { s with i := resetAfter s.i false } else s
+
+def stepSys (s : Sys) : SysOp → Sys
+  | .eval .outer caching e =>
+      let s1 := startSys s .outer
+      let o' := duringQ caching s1.o e
+      let i' := duringQ caching s1.i e
+      match e with
+      | .suspended => { o := o', i := i', runO := true, runI := true }
+      | _ => { o := resetAfter o' (e == .completed), i := resetAfter i' (e == .completed), runO := false, runI := false }
+  | .eval .inner caching e =>
+      let s1 := startSys s .inner
+      let i' := duringQ caching s1.i e
+      match e with
+      | .suspended => { s1 with i := i', runI := true }
+      | _ => { s1 with i := resetAfter i' (e == .completed), runI := false }
+  | .closeOld .outer mine =>
+      if mine then { o := resetAfter s.o false, i := resetAfter s.i false, runO := false, runI := false } else s
+  | .closeOld .inner mine =>
+      if mine then { s with i := resetAfter s.i false, runI := false } else s
+
+/-- A query that is not marked as running has clean nodes. -/
+def ReadySys (s : Sys) : Prop := (s.runO = false → Clean s.o) ∧ (s.runI = false → Clean s.i)
+
+theorem startSys_inner_o (s : Sys) : (startSys s .inner).o = s.o := by
+  simp only [startSys]; split <;> rfl
+
+theorem startSys_inner_runO (s : Sys) : (startSys s .inner).runO = s.runO := by
+  simp only [startSys]; split <;> rfl
+
+theorem clean_reset_false (n : NodeSt) : Clean (resetAfter n false) := by simp [resetAfter, Clean]
+
+theorem clean_startSys (s : Sys) (h : ReadySys s) :
+    (Clean (startSys s .outer).o ∧ Clean (startSys s .outer).i) ∧ Clean (startSys s .inner).i := by
+  obtain ⟨h1, h2⟩ := h
+  refine ⟨?_, ?_⟩
+  · unfold startSys
+    cases hO : s.runO <;> cases hI : s.runI <;>
+      simp [clean_reset_false, h1, h2, hO, hI]
+  · unfold startSys
+    cases hI : s.runI <;> simp [clean_reset_false, h2, hI]
+
+theorem clean_after (caching : Bool) (n : NodeSt) (e : Ending') (h : Clean n) (he : e ≠ .suspended) :
+    Clean (resetAfter (duringQ caching n e) (e == .completed)) := by
+  cases e <;> cases caching <;> simp_all [duringQ, resetAfter, Clean]
+
+theorem readySys_step (s : Sys) (op : SysOp) (h : ReadySys s) : ReadySys (stepSys s op) := by
+  have hc := clean_startSys s h
+  cases op with
+  | eval w caching e =>
+    cases w with
+    | outer =>
+      by_cases he : e = .suspended
+      · subst he; simp [stepSys, ReadySys]
+      · have a := clean_after caching _ e hc.1.1 he
+        have b := clean_after caching _ e hc.1.2 he
+        cases e <;> simp_all [stepSys, ReadySys]
+    | inner =>
+      by_cases he : e = .suspended
+      · subst he
+        refine ⟨?_, by simp [stepSys]⟩
+        intro hr
+        have : (startSys s .inner).o = s.o := startSys_inner_o s
+        have hr' : s.runO = false := by
+          simpa [stepSys, startSys_inner_runO] using hr
+        simpa [stepSys, this] using h.1 hr'
+      · have b := clean_after caching _ e hc.2 he
+        have ho : (startSys s .inner).o = s.o := startSys_inner_o s
+        have hro : (startSys s .inner).runO = s.runO := startSys_inner_runO s
+        cases e <;> simp_all [stepSys, ReadySys]
+  | closeOld w mine =>
+    cases w <;> cases mine <;> simp [stepSys, ReadySys, clean_reset_false, h.1, h.2]
+    · exact h
+    · exact h
+    · exact h.1
+
+/-- **C04, life-cycle with a query that supplies a domain.**  After every history of evaluations of the outer and of
+    the inner query - run to the end, closed early, aborted, left suspended - and of late finalisations of suspended
+    iterators, the next evaluation of EITHER query starts with every node it reaches clean. -/
+theorem c04_lifecycle_clean_query_domain (hist : List SysOp) :
+    let s := hist.foldl stepSys {}
+    (Clean (startSys s .outer).o ∧ Clean (startSys s .outer).i) ∧ Clean (startSys s .inner).i := by
+  have gen : ∀ (hist : List SysOp) (s : Sys), ReadySys s → ReadySys (hist.foldl stepSys s) := by
+    intro hist
+    induction hist with
+    | nil => intro s h; exact h
+    | cons p ps ih => intro s h; exact ih _ (readySys_step s p h)
+  exact clean_startSys _ (gen hist {} ⟨fun _ => ⟨rfl, by simp⟩, fun _ => ⟨rfl, by simp⟩⟩)
+
+/-- What R32 repaired: if the outer query's resets did not reach the inner query's nodes, a COMPLETED outer evaluation
+    would leave them dirty (the inner query evaluated by itself afterwards returned too few rows). -/
+example : ¬ Clean (duringQ false ({} : NodeSt) .completed) := by simp [duringQ, Clean]
+
 end Lifecycle
 
 /-- **Node state, L2, conjunctive fragment.**  With the result cache disabled, the stateful evaluator
